@@ -103,6 +103,8 @@ def main():
             pass
 
     import crosshair.core_and_libs  # noqa: registers opcode patches and library models
+    shim.real_regex()
+    result["stubs"] = list(shim.STUBS)
     import crosshair.core as cc
     import crosshair.statespace as cs
     from crosshair.options import AnalysisOptionSet
